@@ -154,9 +154,112 @@ pub fn units(plans: &[(bool, usize)], for_c03: bool) -> Vec<Unit> {
     units
 }
 
+// ------------------------------------------------------------------------------------------------
+// The loss event rate (RFC 5348 sections 5.2 - 5.4) that the throughput equation is evaluated with
+// ------------------------------------------------------------------------------------------------
+
+/// Letters: the next frame in send order was acknowledged (`A(k)`: k of them), or was lost, having been sent `dt` ms after the previous
+/// lost-or-acknowledged event (`N(dt)`), with the RTT estimate `rtt` in force when the loss is detected.
+#[derive(Clone, Copy, Debug, PartialEq)]
+pub enum Lev { A(u32), N(u64), Reset(u32) }
+
+pub const LOSS_RTT_MS: u64 = 100;
+
+/// Reference: loss events of RFC 5348 5.2 (a loss starts a new event if its frame was sent more than one RTT after the frame that started the
+/// current event, as measured when the event started), intervals of 5.3 counted in frames from the start of one event to the start of the next,
+/// and the weighted average of 5.4 over the open interval and the last eight closed ones (whichever of I_tot0, I_tot1 is larger).
+fn loss_ref(seq: &[Lev]) -> Vec<f64> {
+    const W: [f64; 8] = [1.0, 1.0, 1.0, 1.0, 0.8, 0.6, 0.4, 0.2];
+    let mut out = Vec::new();
+    let mut t = 0u64;
+    let mut ivs: Vec<u64> = Vec::new();     // newest first; ivs[0] is the open interval
+    let mut event_end: Option<u64> = None;
+    for e in seq {
+        match *e {
+            Lev::A(k) => { if !ivs.is_empty() { ivs[0] += k as u64; } }
+            Lev::N(dt) => {
+                t += dt;
+                if event_end.map_or(true, |end| t >= end) { ivs.insert(0, 1); ivs.truncate(9); event_end = Some(t + LOSS_RTT_MS); } else { ivs[0] += 1; }
+            }
+            Lev::Reset(len) => { ivs.truncate(1); if !ivs.is_empty() { ivs[0] = len as u64; } }
+        }
+        let p = if ivs.is_empty() { 0.0 } else if ivs.len() == 1 { 1.0 / ivs[0] as f64 } else {
+            let n = ivs.len() - 1;
+            let tot0: f64 = (0..n).map(|i| ivs[i] as f64 * W[i]).sum(); let tot1: f64 = (1..=n).map(|i| ivs[i] as f64 * W[i - 1]).sum(); let w: f64 = W[..n].iter().sum();
+            w / tot0.max(tot1)
+        };
+        out.push(p);
+    }
+    out
+}
+
+pub fn loss_encode(seq: &[Lev]) -> String { format!("case:lossq:{}", seq.iter().map(|e| match e { Lev::A(k) => format!("A{}", k), Lev::N(dt) => format!("N{}", dt), Lev::Reset(l) => format!("R{}", l) }).collect::<Vec<_>>().join(";")) }
+pub fn loss_decode(case: &str) -> Option<Vec<Lev>> {
+    case.strip_prefix("case:lossq:")?.split(';').filter(|x| !x.is_empty()).map(|x| { let (k, v) = x.split_at(1); Some(match k { "A" => Lev::A(v.parse().ok()?), "N" => Lev::N(v.parse().ok()?), "R" => Lev::Reset(v.parse().ok()?), _ => return None }) }).collect()
+}
+
+pub fn run_loss_seq(seq: &[Lev]) -> (Vec<Violation>, u64, Option<String>) {
+    let r = guarded(|| {
+        let mut v: Vec<Violation> = Vec::new();
+        let mut q = LossIntervalQueue::new();
+        let expect = loss_ref(seq);
+        let mut t = 0u64; let mut h = 0xcbf29ce484222325u64;
+        for (k, e) in seq.iter().enumerate() {
+            match *e {
+                Lev::A(n) => { for _ in 0..n { q.push_ack(); } }
+                Lev::N(dt) => { t += dt; q.push_nack(t, LOSS_RTT_MS); }
+                // (the queue is reset only on the first loss report, when it holds one interval)
+                Lev::Reset(len) => { q.reset(1.0 / len as f64); }
+            }
+            let p = q.compute_loss_rate();
+            h = fnv(h, (p * 1e9) as u64);
+            if (p - expect[k]).abs() > 1e-9 * expect[k].max(1e-9) + 1e-12 && v.is_empty() {
+                v.push(viol("C14.loss-event-rate", format!("C14.loss-event-rate:{}", if p < expect[k] { "too-low" } else { "too-high" }), format!("after event {} of {:?} (RTT {} ms) the loss event rate is {} where sections 5.2-5.4 of RFC 5348 give {}: the throughput equation is evaluated with a loss event rate that is {}", k, seq, LOSS_RTT_MS, p, expect[k], if p < expect[k] { "too low, so the allowed rate exceeds the equation" } else { "too high" })));
+            }
+        }
+        (v, h)
+    });
+    match r { Ok((v, h)) => (v, h, None), Err(p) => (vec![], 0xDEAD, Some(p)) }
+}
+
+/// All sequences of the given length over: acknowledged frames (1, 7), a loss 40 / 60 ms after the previous loss (inside the event that a loss
+/// 100 ms earlier started? - depends on the sum), 99 / 101 ms (either side of one RTT), 250 ms; first letter a loss, optionally a reset after it.
+pub fn loss_units(depth: usize, for_c03: bool) -> Vec<Unit> {
+    let alpha: Vec<Lev> = vec![Lev::A(1), Lev::A(7), Lev::N(40), Lev::N(60), Lev::N(99), Lev::N(101), Lev::N(250)];
+    let mut units: Vec<Unit> = Vec::new();
+    for reset in [None, Some(50u32)] {
+        for first in 0..alpha.len() {
+            for second in 0..alpha.len() {
+                let alpha = alpha.clone();
+                units.push(Box::new(move |acc: &mut Acc| {
+                    let n = alpha.len();
+                    let mut idx = vec![0usize; depth]; idx[0] = first; idx[1] = second;
+                    loop {
+                        let mut seq: Vec<Lev> = vec![Lev::N(10)];
+                        if let Some(l) = reset { seq.push(Lev::Reset(l)); }
+                        seq.extend(idx.iter().map(|&i| alpha[i]));
+                        let (v, h, panic) = run_loss_seq(&seq);
+                        acc.evals += 1; acc.transitions += seq.len() as u64; acc.outcomes.insert(h);
+                        if let Some(p) = panic { acc.panics += 1; let loc = p.rsplit(" @ ").next().unwrap_or("").to_string();
+                            acc.violation(loss_encode(&seq), if for_c03 { viol("C03.panic", format!("C03.panic:loss-intervals:{}", loc), format!("LossIntervalQueue fed with {:?}: {}", seq, p)) } else { viol("C14.aborted-by-panic", format!("C14.aborted-by-panic:{}", loc), format!("LossIntervalQueue fed with {:?}: {}", seq, p)) }); }
+                        if !for_c03 { for x in v { acc.violation(loss_encode(&seq), x); } }
+                        if first == 2 && second == 5 && idx[2..].iter().all(|&i| i == 1) { acc.sample(format!("loss history {:?}", seq)); }
+                        let mut k = depth; let mut done = true;
+                        while k > 2 { k -= 1; idx[k] += 1; if idx[k] < n { done = false; break; } idx[k] = 0; }
+                        if done { break; }
+                    }
+                }));
+            }
+        }
+    }
+    units
+}
+
 pub fn build(quick: bool) -> PropRun {
     let plans: Vec<(bool, usize)> = if quick { vec![(false, 5), (true, 3)] } else { vec![(false, 6), (true, 4)] };
-    PropRun { level: "model_checking", scenarios: vec![], units: units(&plans, false), replay_case: Some(replay_case), summary: Summary {
+    let mut all_units = units(&plans, false);
+    all_units.extend(loss_units(if quick { 7 } else { 9 }, false));
+    PropRun { level: "model_checking", scenarios: vec![], units: all_units, replay_case: Some(replay_case), summary: Summary {
         rule: "every sequence of events {frame sent; step with feedback f; step without feedback after gap g} up to the stated length over the boundary alphabet is applied to a fresh real SendRateComp (3 ceilings); after every event rate and RTT estimate are compared with bounds from the RFC 5348 formulas; distinct = distinct final (rate, RTO) trajectory hash".into(),
         bounds: json!({"plans(full_alphabet,length)": plans, "reduced_alphabet": format!("{} letters", alphabet(false).len()), "full_alphabet": format!("{} letters: rtt {{0,1,100,3000}} ms x receive rate {{0,1000,1e6,2^32-1}} x loss {{0,1e-4,0.1,1}} x rate_limited x gap {{1,100}} ms; silence {{0,1,100,5000,1e6}} ms; frame sent; long silences while transmitting (14 x 5 s, 40 x 1000 s, every step checked)", alphabet(true).len()), "ceilings": [1472, 10_000, "2^32-1"]}),
         assumptions: vec!["the loss event rate in force after the step that leaves slow start is the value handed to the reset_loss_rate callback (5 % tolerance of the code's own inverse plus 1 %), the reported value afterwards".into(),
@@ -165,6 +268,7 @@ pub fn build(quick: bool) -> PropRun {
 }
 
 pub fn replay_case(case: &str) -> Vec<Violation> {
+    if let Some(seq) = loss_decode(case) { let (v, _, p) = run_loss_seq(&seq); println!("loss history {:?}: reference {:?}", seq, loss_ref(&seq)); if let Some(p) = p { println!("PANIC inside uflow: {}", p); } return v; }
     match decode(case) {
         Some((ceil, seq)) => { let (v, _, p) = run_seq(ceil, &seq, false); println!("ceiling {} events {:?}", ceil, seq); if let Some(p) = p { println!("PANIC inside uflow: {}", p); } v }
         None => vec![],
